@@ -42,7 +42,7 @@ TIERS = {
     "quick": {"runs": 3000, "chunk": 50, "selftest": 48, "minimise_s": 60},
     "thorough": {"budget_s": 600, "chunk": 100, "selftest": 256, "minimise_s": 120},
 }
-PROBES = ["failed_parse_before_compare", "abandoned_generator", "result_mutated", "hook_fault_mid_parse", "other_module_same_names", "fresh_process_compared",
+PROBES = ["same_input_object_twice", "failed_parse_before_compare", "abandoned_generator", "result_mutated", "hook_fault_mid_parse", "other_module_same_names", "fresh_process_compared",
           "premature_use_then_define", "local_class", "default_taken", "leaf_fault"]
 
 
@@ -119,16 +119,19 @@ INIT_TEMPLATES = [
     {"n": 1, "exd": 5},                                     # kept: the dependency is missing
     {"n": 1, "exd": 5, "dep": 1},
     {"n": 1, "ann": [1, "2"]},
+    {"n": 1, "lst": [], "dct": {"g": []}, "ann": []},       # empty containers that already have the declared type
+    {"n": 1, "lst": [], "inners": [], "tup": [[]]},
 ]
-D_TEMPLATES = [{"n": 1}, {"n": "2", "lst": ["3"]}, {"n": 1, "dct": {"q": [1]}}, {"n": "zz"}, {"n": 1, "raw": [[1]]},
+D_TEMPLATES = [{"n": 1, "lst": [], "dct": {"g": []}}, {"n": 1}, {"n": "2", "lst": ["3"]}, {"n": 1, "dct": {"q": [1]}}, {"n": "zz"}, {"n": 1, "raw": [[1]]},
                {"n": 1, "leaf": {"$r": 0}}, {}, {"n": 1, "exd": "zz"}, {"n": 1, "exd": 5}, {"n": 1, "exd": 6, "dep": 2}]
-H_TEMPLATES = [{"n": 1}, {"n": "2", "x": {"v": "3"}}, {"xs": [{"v": 1}, {"tags": ["a"]}]}, {"n": 1, "ann": [7]}, {"x": {"v": "zz"}}, {}]
+H_TEMPLATES = [{"n": 1, "xs": [], "ann": []}, {"n": 1}, {"n": "2", "x": {"v": "3"}}, {"xs": [{"v": 1}, {"tags": ["a"]}]}, {"n": 1, "ann": [7]}, {"x": {"v": "zz"}}, {}]
 F_TEMPLATES = [
     {"args": [1], "kw": {}}, {"args": ["2", [3]], "kw": {}}, {"args": [1], "kw": {"dct": {"z": ["1"]}}},
     {"args": [1, [1], {"k": [2]}, None, 5, "6"], "kw": {"x": "7"}}, {"args": ["zz"], "kw": {}}, {"args": [], "kw": {}},
     {"args": [1], "kw": {"leaf": {"$r": 0}}}, {"args": [1], "kw": {"lst": ["zz"]}},
+    {"args": [1, []], "kw": {}}, {"args": [1], "kw": {"lst": [], "dct": {"g": []}}},
 ]
-LOCAL_TEMPLATES = [{}, {"x": ["2"]}, {"me": {"x": [3]}}, {"many": [{"me": {}}]}, {"x": "zz"}, {"me": {"x": ["zz"]}}]
+LOCAL_TEMPLATES = [{"x": [], "many": []}, {}, {"x": ["2"]}, {"me": {"x": [3]}}, {"many": [{"me": {}}]}, {"x": "zz"}, {"me": {"x": ["zz"]}}]
 
 
 def generate(rng, tier):
@@ -160,10 +163,17 @@ def generate(rng, tier):
         if not defined and (r < 0.2 or i == nops - 2):
             ops.append({"op": "define_inner"})
             defined = True
-        elif r < 0.3:
-            ops.append({"op": "init", "cls": "A", "data": fill(rng.choice(INIT_TEMPLATES))})
         elif r < 0.4:
-            ops.append({"op": "init", "cls": "D", "data": fill(rng.choice(D_TEMPLATES))})
+            cls = "A" if r < 0.3 else "D"
+            # the very same input object handed to a second parse (fields of a bare list / dict / Any type keep the
+            # caller's object by design, so such inputs are left out)
+            earlier = [m for m, o in enumerate(ops) if o["op"] == "init" and o["cls"] == cls and "same_as" not in o
+                       and not set(o["data"]) & {"raw", "anyv", "tpl", "lax", "leaf"}]
+            if earlier and rng.random() < 0.25:
+                m = rng.choice(earlier)
+                ops.append({"op": "init", "cls": cls, "data": copy.deepcopy(ops[m]["data"]), "same_as": m})
+            else:
+                ops.append({"op": "init", "cls": cls, "data": fill(rng.choice(INIT_TEMPLATES if cls == "A" else D_TEMPLATES))})
         elif r < 0.45:
             ops.append({"op": "init", "cls": "FD", "data": rng.choice([{}, {"a": [1]}, {"a": "zz", "b": [2]}])})
         elif r < 0.5:
@@ -290,11 +300,11 @@ def _pos_inputs(op):
     return data, more
 
 
-def run_op(world, op, inputs_out=None):
+def run_op(world, op, inputs_out=None, prebuilt=None):
     """Returns (value or None, outcome). inputs_out collects the caller-side input objects."""
     k = op["op"]
     if k == "init":
-        data = _val(op["data"])
+        data = _val(op["data"]) if prebuilt is None else prebuilt
         if inputs_out is not None:
             inputs_out.append(data)
         cls = world.get(op["cls"])
@@ -377,6 +387,7 @@ def execute(plan):
             {"op": "init", "cls": "D", "data": {"n": 1, "exd": 5}}, {"op": "init", "cls": "A", "data": {"n": 1, "exd": 5}}]
     n_user = len(ops)
     tail_out = {}
+    kept_inputs = {}
     for n, op in enumerate(ops + tail):
         k = op["op"]
         is_tail = n >= n_user
@@ -428,7 +439,12 @@ def execute(plan):
         fired0 = dict(faults.STATE.fired)
         # build inputs first to snapshot them: run_op builds them, so snapshot inside via a pre-pass
         snap_op = copy.deepcopy(op)
-        val, out = run_op(main, op, inputs_out=inputs)
+        prebuilt = kept_inputs.get(op.get("same_as")) if k == "init" else None
+        if prebuilt is not None:
+            res.stats["probe:same_input_object_twice"] += 1
+        val, out = run_op(main, op, inputs_out=inputs, prebuilt=prebuilt)
+        if k == "init" and inputs:
+            kept_inputs[n] = inputs[0]
         hook_fired = faults.STATE.fired.get("hook_fail", 0) - fired0.get("hook_fail", 0)
         leaf_fired = faults.STATE.fired.get("leaf_fail", 0) - fired0.get("leaf_fail", 0)
         if hook_fired:
@@ -556,7 +572,13 @@ def shrink(plan):
     for i in range(len(plan["ops"]) - 1, -1, -1):
         p = copy.deepcopy(plan)
         p["ops"].pop(i)
+        for o in p["ops"]:
+            if o.get("same_as") == i:
+                o.pop("same_as")
+            elif o.get("same_as", -1) > i:
+                o["same_as"] -= 1
         yield p
+    shared = {o["same_as"] for o in plan["ops"] if "same_as" in o}
     for sect in ("leaf", "hook"):
         for k in list((plan["faults"].get(sect) or {})):
             p = copy.deepcopy(plan)
@@ -569,7 +591,7 @@ def shrink(plan):
             p["ops"] = [o for o in p["ops"] if o["op"] != "define_inner"] if k == "inner_late" else p["ops"]
             yield p
     for i, o in enumerate(plan["ops"]):
-        if o["op"] in ("init", "local", "other_module") and isinstance(o.get("data"), dict):
+        if o["op"] in ("init", "local", "other_module") and isinstance(o.get("data"), dict) and "same_as" not in o and i not in shared:
             for key in list(o["data"]):
                 p = copy.deepcopy(plan)
                 p["ops"][i]["data"].pop(key)
